@@ -5,7 +5,7 @@ HOOKS = {
     "guard": "verif",
     "enable": "go test -tags verif (harness module /verif/harness, replace github.com/projecteru2/core => /repo)",
     "baseline_off_cmd": "for m in $(cat /w/out/gomods.txt); do MF=$(cd /repo/$m && . /w/out/goenv.sh && gomodflag); (cd /repo/$m && go test $MF -json -vet=off -count=1 -timeout 25m ./...); done",
-    "source_commits": [],
+    "source_commits": ["9c17ef8"],
     "add_only": True,
 }
 
